@@ -44,6 +44,7 @@ struct Meta {
     char sit[96];
     bool args_only;
     bool undocumented; // no precondition documented/declared: listed in the evidence, not a violation when missed
+    bool valid;        // a VALID boundary call: the handler must NOT be entered (the same operations called with valid arguments never invoke it)
 };
 
 // The scenario table is a function whose statements are numbered as they are passed; running it with
@@ -73,6 +74,22 @@ void fill_vec(V& v, std::size_t n)
             std::snprintf(t.meta->sit, sizeof t.meta->sit, SITFMT, SITARG);                                            \
             t.meta->args_only = ARGSONLY;                                                                              \
             t.meta->undocumented = false;                                                                              \
+            t.meta->valid = false;                                                                                     \
+            if (t.run) { __VA_ARGS__ }                                                                                 \
+            return;                                                                                                    \
+        }                                                                                                              \
+    } while (0)
+// a valid call at the edge of the precondition: must return normally without the handler
+#define VSCN(SUBJ, OP, SITFMT, SITARG, ...)                                                                            \
+    do {                                                                                                               \
+        if (t.k++ == t.want) {                                                                                         \
+            t.hit = true;                                                                                              \
+            std::snprintf(t.meta->subject, sizeof t.meta->subject, "%s", SUBJ);                                        \
+            std::snprintf(t.meta->op, sizeof t.meta->op, "%s", OP);                                                    \
+            std::snprintf(t.meta->sit, sizeof t.meta->sit, "valid:" SITFMT, SITARG);                                   \
+            t.meta->args_only = false;                                                                                 \
+            t.meta->undocumented = false;                                                                              \
+            t.meta->valid = true;                                                                                      \
             if (t.run) { __VA_ARGS__ }                                                                                 \
             return;                                                                                                    \
         }                                                                                                              \
@@ -171,6 +188,62 @@ void table(Tab& t)
     SCN("static_vector<int,3>", "ctor(n,value)", "%s", "n>capacity", true, { int x = 1; SV v(std::size_t(4), x); use(v); });
     SCN("static_vector<int,3>", "ctor(first,last)", "%s", "range>capacity", true, { vf::Buf<int> src(4); for (int i = 0; i < 4; ++i) { src[i] = 7; } int const* f = src.data(); SV v(f, f + 4); use(v); });
     SCN("static_vector<int,3>", "ctor(first,last)", "%s", "first>last", true, { vf::Buf<int> src(4); for (int i = 0; i < 4; ++i) { src[i] = 7; } int const* f = src.data(); SV v(f + 2, f); use(v); });
+
+    // ---------------------------------------------------------------- capacities at the maximum of the internal size type (255, 65535): a check written
+    // as "new size <= capacity" is vacuous there when the size wraps
+    {
+        auto boundary = [&]<typename T, std::size_t N>(char const* name, etl::static_vector<T, N>*) {
+            using V = etl::static_vector<T, N>;
+            SCN(name, "pop_back()", "%s", "empty,capacity=size-type-max", true, { V v{}; WATCH(v); v.pop_back(); });
+            SCN(name, "front()", "%s", "empty,capacity=size-type-max", true, { V v{}; WATCH(v); use(v.front()); });
+            SCN(name, "back()", "%s", "empty,capacity=size-type-max", true, { V v{}; WATCH(v); use(v.back()); });
+            SCN(name, "operator[](pos)", "%s", "empty,pos=0,capacity=size-type-max", true, { V v{}; WATCH(v); use(v[0]); });
+            SCN(name, "operator[](pos)", "%s", "full,pos=size,capacity=size-type-max", true, { V v{}; for (std::size_t i = 0; i < N; ++i) { v.emplace_back(); } WATCH(v); use(v[N]); });
+            SCN(name, "emplace_back(args)", "%s", "full,capacity=size-type-max", true, { V v{}; for (std::size_t i = 0; i < N; ++i) { v.emplace_back(); } WATCH(v); v.emplace_back(); });
+            SCN(name, "push_back(T const&)", "%s", "full,capacity=size-type-max", true, { V v{}; for (std::size_t i = 0; i < N; ++i) { v.emplace_back(); } typename V::value_type x{}; WATCH(v); v.push_back(x); });
+            SCN(name, "resize(n)", "%s", "n=capacity+1,capacity=size-type-max", true, { V v{}; WATCH(v); v.resize(N + 1); });
+            SCN(name, "assign(n,value)", "%s", "n=capacity+1,capacity=size-type-max", true, { V v{}; v.emplace_back(); typename V::value_type x{}; WATCH(v); v.assign(N + 1, x); });
+            SCN(name, "erase(pos)", "%s", "empty,pos=end,capacity=size-type-max", true, { V v{}; WATCH(v); v.erase(v.cend()); });
+            VSCN(name, "pop_back()", "%s", "one-element,capacity=size-type-max", { V v{}; v.emplace_back(); v.pop_back(); use(v); });
+            VSCN(name, "emplace_back(args)", "%s", "fills-last-slot,capacity=size-type-max", { V v{}; for (std::size_t i = 0; i < N; ++i) { v.emplace_back(); } use(v[N - 1]); use(v.back()); });
+            VSCN(name, "resize(n)", "%s", "n=capacity,capacity=size-type-max", { V v{}; v.resize(N); v.resize(0); use(v); });
+        };
+        boundary("static_vector<uint8,255>", static_cast<etl::static_vector<unsigned char, 255>*>(nullptr));
+        boundary("static_vector<tracked,255>", static_cast<etl::static_vector<vf::TCM, 255>*>(nullptr));
+        boundary("static_vector<uint8,65535>", static_cast<etl::static_vector<unsigned char, 65535>*>(nullptr));
+        boundary("static_vector<uint8,256>", static_cast<etl::static_vector<unsigned char, 256>*>(nullptr));
+    }
+    {
+        using IB = etl::inplace_vector<unsigned char, 255>;
+        SCN("inplace_vector<uint8,255>", "pop_back()", "%s", "empty,capacity=size-type-max", true, { IB v{}; WATCH(v); v.pop_back(); });
+        SCN("inplace_vector<uint8,255>", "front()", "%s", "empty,capacity=size-type-max", true, { IB v{}; WATCH(v); use(v.front()); });
+        SCN("inplace_vector<uint8,255>", "unchecked_emplace_back(args)", "%s", "full,capacity=size-type-max", true, { IB v{}; for (int i = 0; i < 255; ++i) { v.unchecked_emplace_back(); } WATCH(v); v.unchecked_emplace_back(); });
+        SCN("inplace_vector<uint8,255>", "operator[](n)", "%s", "full,pos=size,capacity=size-type-max", true, { IB v{}; for (int i = 0; i < 255; ++i) { v.unchecked_emplace_back(); } WATCH(v); use(v[255]); });
+        using S255 = etl::inplace_string<255>;
+        SCN("inplace_string<255>", "pop_back()", "%s", "empty,capacity=size-type-max", true, { S255 x; WATCH(x); x.pop_back(); });
+        SCN("inplace_string<255>", "push_back(ch)", "%s", "full,capacity=size-type-max", true, { S255 x(std::size_t(255), 'a'); WATCH(x); x.push_back('b'); });
+        SCN("inplace_string<255>", "front()", "%s", "empty,capacity=size-type-max", true, { S255 x; WATCH(x); use(x.front()); });
+        VSCN("inplace_string<255>", "push_back(ch)", "%s", "fills-last-slot", { S255 x(std::size_t(254), 'a'); x.push_back('b'); use(x.back()); });
+    }
+
+    // ---------------------------------------------------------------- valid calls at the edge of every family: the handler must stay silent
+    {
+        VSCN("static_vector<int,3>", "operator[](pos)", "%s", "pos=size-1", { SV v; fill_vec(v, 3); use(v[2]); SV const& c = v; use(c[2]); use(v.front()); use(v.back()); });
+        VSCN("static_vector<int,3>", "insert/erase", "%s", "pos=end,last-slot", { SV v; fill_vec(v, 2); v.insert(v.cend(), 9); v.erase(v.cend() - 1); v.erase(v.cbegin(), v.cbegin()); v.erase(v.cend(), v.cend()); use(v); });
+        VSCN("static_vector<int,3>", "resize/assign", "%s", "n=capacity", { SV v; v.resize(3); int x = 1; v.assign(std::size_t(3), x); v.resize(3, x); v.insert(v.cbegin(), std::size_t(0), x); use(v); });
+        VSCN("inplace_vector<int,3>", "accessors", "%s", "pos=size-1", { IV v{}; for (int i = 0; i < 3; ++i) { v.unchecked_emplace_back(i); } use(v[2]); use(v.front()); use(v.back()); v.pop_back(); use(v); });
+        VSCN("inplace_string<7>", "accessors/insert/erase", "%s", "index=size", { etl::inplace_string<7> x(std::size_t(3), 'a'); use(x[2]); use(x.front()); use(x.back()); x.insert(3, 1, 'b'); x.insert(0, 0, 'c'); x.erase(4, 0); x.erase(3); use(x.substr(3)); use(x.compare(3, 0, x)); });
+        VSCN("string_view", "substr/copy/compare/remove_*", "%s", "pos=size", { vf::Buf<char> h(3); std::memset(h.data(), 'a', 3); vf::Buf<char> d(2); etl::string_view v(h.data(), 3); use(v.substr(3)); use(v.substr(3, 0)); use(v.copy(d.data(), 0, 3)); use(v.copy(d.data(), 2, 3)); use(v.compare(3, 0, v)); use(v.compare(3, 1, v, 3, 1)); use(v[2]); use(v.front()); use(v.back()); etl::string_view w = v; w.remove_prefix(3); w = v; w.remove_suffix(3); use(w); });
+        VSCN("span<int>", "first/last/subspan/operator[]", "%s", "count=size,offset=size", { vf::Buf<int> h(3); h[0] = h[1] = h[2] = 0; etl::span<int> sp(h.data(), 3); use(sp.first(3)); use(sp.last(3)); use(sp.first(0)); use(sp.subspan(3)); use(sp.subspan(3, 0)); use(sp.subspan(1, 2)); use(sp.subspan(0, etl::dynamic_extent)); use(sp[2]); use(sp.front()); use(sp.back()); });
+        VSCN("optional<int>", "operator*() all value categories", "%s", "engaged", { etl::optional<int> o(3); use(*o); use(*etl::as_const(o)); int a = *static_cast<etl::optional<int>&&>(o); int b = *static_cast<etl::optional<int> const&&>(o); use(a); use(b); use(*o.operator->()); });
+        VSCN("optional<tracked>", "operator*()/operator->()", "%s", "engaged", { etl::optional<vf::TCM> o(3); use(*o); use(o->value()); use(*etl::as_const(o)); });
+        VSCN("expected<int,char>", "operator*()/operator->() all value categories", "%s", "has-value", { etl::expected<int, char> e(etl::in_place, 3); use(*e); use(*etl::as_const(e)); int a = *static_cast<etl::expected<int, char>&&>(e); int b = *static_cast<etl::expected<int, char> const&&>(e); use(a); use(b); use(*e.operator->()); });
+        VSCN("expected<int,char>", "error() all value categories", "%s", "has-error", { etl::expected<int, char> e(etl::unexpect, 'x'); use(e.error()); use(etl::as_const(e).error()); char a = static_cast<etl::expected<int, char>&&>(e).error(); char b = static_cast<etl::expected<int, char> const&&>(e).error(); use(a); use(b); });
+        VSCN("expected<tracked,tracked2>", "error()/operator*() all value categories", "%s", "matching-state", { using X = etl::expected<vf::TCM, vf::Tracked<vf::kCopyMove, 1>>; X e(etl::unexpect, 4); use(e.error()); use(etl::as_const(e).error()); auto a = static_cast<X const&&>(e).error(); use(a); auto b = static_cast<X&&>(e).error(); use(b); X v(etl::in_place, 5); use(*v); use(*etl::as_const(v)); auto c = *static_cast<X const&&>(v); use(c); auto d = *static_cast<X&&>(v); use(d); });
+        VSCN("variant<int,char>", "operator[]/get_if/unchecked access", "%s", "active-alternative", { etl::variant<int, char> v(etl::in_place_index<1>, 'x'); use(v[etl::index_v<1>]); use(etl::as_const(v)[etl::index_v<1>]); use(*etl::get_if<1>(&v)); use(etl::get_if<0>(&v)); });
+        VSCN("bitset<9>", "test/set/reset/flip/operator[]", "%s", "pos=size-1", { etl::bitset<9> b; b.set(8); use(b.test(8)); b.reset(8); b.flip(8); use(b[8]); });
+        VSCN("array<int,3>", "operator[]/front/back", "%s", "pos=size-1", { etl::array<int, 3> a{1, 2, 3}; use(a[2]); use(etl::as_const(a)[2]); use(a.front()); use(a.back()); });
+    }
 
     // ---------------------------------------------------------------- inplace_vector
     for (std::size_t n = 0; n <= 3; ++n) {
@@ -487,6 +560,20 @@ void run_case(vf::Case& c)
     if (vf::want_sample(meta.subject)) {
         vf::sample(meta.subject, "%s %s [%s] -> exit=%d sig=%d handler=%d at %s:%d expr=%s unmodified=%d", meta.subject, meta.op, meta.sit, o.code, o.sig,
             sh->contract_fired, sh->c_file, sh->c_line, sh->c_expr, sh->c_unmodified);
+    }
+    if (meta.valid) {
+        if (o.timeout) {
+            vf::record("hang", "timeout", "valid boundary call did not return", "normal return");
+        } else if (o.exited && o.code == 77 && sh->contract_fired) {
+            char obs[200];
+            std::snprintf(obs, sizeof obs, "handler entered at %s:%d (%s)", sh->c_file, sh->c_line, sh->c_expr);
+            vf::record("contract-spurious", "handler-on-valid-call", obs, "normal return (valid arguments never invoke the handler)");
+        } else if (!(o.exited && o.code == 5)) {
+            char obs[96];
+            std::snprintf(obs, sizeof obs, "exit=%d signal=%d", o.code, o.sig);
+            vf::record("crash", "valid-boundary-call", obs, "normal return");
+        }
+        return;
     }
     if (o.timeout) {
         vf::record("hang", "timeout", "violating call did not return and did not reach the handler", "handler");
